@@ -177,6 +177,16 @@ Clauses(e) ==
      IF ~DecsComplete(e, e.completed)
      THEN << <<"abort-decisions-of-finished-boards", FALSE>> >>
      ELSE << <<"abort-main-stopped", e.done.main_exc>>,
+             \* a board whose last card had already been passed on to every seat
+             \* when the session was abandoned was finished: it is in the log
+             <<"abort-no-finished-board-lost",
+               LET j == e.completed + 1 IN
+               (j <= Len(e.boards) /\ DecsComplete(e, j)
+                  /\ \A s \in 1..4 :
+                        LET full == T!ServerStream(s - 1, SubSeq(e.boards, 1, j), SubSeq(e.decs, 1, j), e.teams)
+                            pre == SubSeq(full, 1, Len(full) - 1)        \* without "End of session"
+                        IN Len(e.s2c[s]) >= Len(pre) /\ SubSeq(e.s2c[s], 1, Len(pre)) = pre)
+                 => e.file.nitems > e.completed>>,
              \* a refused action is not passed on to the other seats
              <<"stream-no-relay-of-refused-action",
                ("offence" \in DOMAIN e /\ e.offence # "") =>
